@@ -41,6 +41,7 @@ func SetE(o, k, e N) N {
 	return N{"ste(" + o.SX + "," + k.SX + "," + e.SX + ")", "(" + o.JS + "[" + k.JS + "] = " + e.JS + ")"}
 }
 func Del(o N, p string) N { return N{"dl(" + o.SX + "," + p + ")", "(delete " + o.JS + "." + p + ")"} }
+func DelV(x string) N { return N{"dlv(" + x + ")", "(delete " + x + ")"} }
 func DelE(o, k N) N {
 	return N{"dle(" + o.SX + "," + k.SX + ")", "(delete " + o.JS + "[" + k.JS + "])"}
 }
@@ -72,6 +73,16 @@ func Log(a N) N { return N{"log(" + a.SX + ")", "log(" + a.JS + ")"} }
 // DefNE defines (or redefines) o.p as a writable, configurable, NON-enumerable data property; value: o.
 func DefNE(o N, p string, e N) N {
 	return N{"dne(" + o.SX + "," + p + "," + e.SX + ")", "Object.defineProperty(" + o.JS + ", " + strconv.Quote(p) + ", {value: " + e.JS + ", enumerable: false, writable: true, configurable: true})"}
+}
+
+// DefRO defines (or redefines) o.p as a READ-ONLY, enumerable, configurable data property; value: o.
+func DefRO(o N, p string, e N) N {
+	return N{"dro(" + o.SX + "," + p + "," + e.SX + ")", "Object.defineProperty(" + o.JS + ", " + strconv.Quote(p) + ", {value: " + e.JS + ", enumerable: true, writable: false, configurable: true})"}
+}
+
+// DefFix defines (or redefines) o.p as a read-only, non-enumerable, NON-CONFIGURABLE data property; value: o.
+func DefFix(o N, p string, e N) N {
+	return N{"dfx(" + o.SX + "," + p + "," + e.SX + ")", "Object.defineProperty(" + o.JS + ", " + strconv.Quote(p) + ", {value: " + e.JS + ", enumerable: false, writable: false, configurable: false})"}
 }
 
 // Val is (0, e): the value of e, never a reference - a call through it has no base object.
@@ -202,6 +213,11 @@ func ForIn(isVar bool, x string, o N, b ...N) N {
 		iv, kw = "1", "var "
 	}
 	return N{"FI(" + iv + "," + x + "," + o.SX + ",S(" + joinN(b, nSX, ",") + "))", "for (" + kw + x + " in " + o.JS + ") { " + joinN(b, nJS, " ") + " }"}
+}
+
+// ForInInit is for (var x = init in o) { ... } (x must be in Vars)
+func ForInInit(x string, init, o N, b ...N) N {
+	return N{"FII(" + x + "," + init.SX + "," + o.SX + ",S(" + joinN(b, nSX, ",") + "))", "for (var " + x + " = " + init.JS + " in " + o.JS + ") { " + joinN(b, nJS, " ") + " }"}
 }
 
 // Label is l: s
